@@ -7,6 +7,7 @@ import (
 	"io"
 	"math/rand/v2"
 	"strings"
+	"sync"
 	"testing"
 	"time"
 
@@ -22,7 +23,7 @@ var passwords = []string{"", "hunter2", "correct horse battery staple", "p√§ssw√
 func init() {
 	Register(&Check{
 		ID: "C18", Level: "exploration", Tech: "deterministic simulation of the two environment inputs of key handling: seeded crypto randomness and the simulated clock (generation at t0, use after a clock jump of up to 100 years)",
-		Rule:      "per run one format in {enc:age, enc:pgp, sig:minisign, sig:pgp} and one password from {empty, ASCII, phrase, multi-byte, 1 KB, blank, with newline}; a fresh pair is generated at simulated time t0 (2000-01-01 + d0), the clock is advanced by d1 in {0, 1 s, 1 year, 30 years, 100 years}; oracle: the pair parses with its password, string and stream encrypt/decrypt (sign/verify) round-trip, parsing with another password fails, and an independently generated pair of the same format neither decrypts nor verifies - strings, streams and header records, asked before AND after the right pair has processed the very same data; non-trivial = every run (a fresh pair is generated); distinct by (format, password class, clock jump). The password/format quantifier is plain seeded generation; what the simulator owns is entropy and clock.",
+		Rule:      "per run one format in {enc:age, enc:pgp, sig:minisign, sig:pgp} and one password from {empty, ASCII, phrase, multi-byte, 1 KB, blank, with newline}; a fresh pair is generated at simulated time t0 (2000-01-01 + d0), the clock is advanced by d1 in {0, 1 s, 1 year, 30 years, 100 years}; oracle: the pair parses with its password, string and stream encrypt/decrypt (sign/verify) round-trip, parsing with another password fails, and an independently generated pair of the same format neither decrypts nor verifies - strings, streams and header records, asked before AND after the right pair has processed the very same data; in half of the runs a real-thread supplement: two free-running goroutines parse the two pairs' public halves at the same time (30..1500 times each) and every key parsed that way must accept its own pair's output and reject the other's; non-trivial = every run (a fresh pair is generated); distinct by (format, password class, clock jump). The password/format quantifier is plain seeded generation; what the simulator owns is entropy and clock.",
 		QuickRuns: 96, QuickSecs: 80, ThoroughRuns: 1500, ThoroughSecs: 1500, MaxWorkers: 8,
 		Assumptions: []string{"clock moves forward only (a key 'from the future' being rejected is standard OpenPGP behaviour)"},
 		Gen: func(r *rand.Rand, tier string, relax Relax) *Case {
@@ -32,10 +33,54 @@ func init() {
 			c.P["d0"] = int64([]int{0, 1, 86400 * 365}[r.IntN(3)])
 			c.P["d1"] = int64([]int{0, 1, 86400 * 365, 86400 * 365 * 30, 86400 * 365 * 100}[r.IntN(5)])
 			c.P["len"] = int64([]int{0, 1, 100, 70000}[r.IntN(4)])
+			if r.IntN(2) == 0 {
+				// real-thread supplement: both pairs' public halves parsed by two goroutines at once
+				c.P["par"] = int64(map[string]int{"enc:age": 300, "enc:pgp": 30, "sig:minisign": 1500, "sig:pgp": 60}[c.S["kind"]])
+			}
 			return c
 		},
 		Eval: evalC18,
 	})
+}
+
+// parallelParse is C18's real-thread supplement: two goroutines (free-running inside the bubble, the
+// worker has two Ps) parse the public halves of the two pairs at the same time, rounds times each in a
+// tight loop; every parsed key is then put to use. What a pair's public half accepts must not depend on
+// what another caller is parsing at that moment. The expected outcome is fixed (own: accepted, other
+// pair: rejected), so the verdict is deterministic whenever the property holds.
+func parallelParse(rounds int, pubs [2][]byte, parse func([]byte) (interface{}, error), use func(who int, rec interface{}) string) string {
+	var out [2][]interface{}
+	var errs [2]error
+	var wg sync.WaitGroup
+	start := make(chan struct{})
+	for g := 0; g < 2; g++ {
+		wg.Add(1)
+		go func(g int) {
+			defer wg.Done()
+			<-start
+			for i := 0; i < rounds; i++ {
+				r, err := parse(pubs[g])
+				if err != nil {
+					errs[g] = err
+					return
+				}
+				out[g] = append(out[g], r)
+			}
+		}(g)
+	}
+	close(start)
+	wg.Wait()
+	for g := range out {
+		if errs[g] != nil {
+			return fmt.Sprintf("pair %d: public half does not parse while another goroutine parses the other pair's: %v", g+1, errs[g])
+		}
+		for i, r := range out[g] {
+			if m := use(g, r); m != "" {
+				return fmt.Sprintf("pair %d, parse #%d of %d made while another goroutine was parsing the other pair's public half: %s", g+1, i+1, rounds, m)
+			}
+		}
+	}
+	return ""
 }
 
 func evalC18(t *testing.T, c *Case, st *Stats, relax Relax) *Violation {
@@ -181,7 +226,27 @@ func evalC18(t *testing.T, c *Case, st *Stats, relax Relax) *Violation {
 				}
 			}
 			st.Add("header_cross_pair_rounds", 2)
-			_ = pub2
+			if rounds := int(c.Param("par", 0)); rounds > 0 {
+				heartbeat()
+				ids := [2]interface{}{id, id2}
+				pm := "parallel phase message " + sumOf(msg)
+				if m := parallelParse(rounds, [2][]byte{pub, pub2}, func(b []byte) (interface{}, error) { return keys.ParseRecipient(format, b) }, func(who int, rec interface{}) string {
+					ct, err := encryption.EncryptString(pm, format, rec)
+					if err != nil {
+						return "encrypt fails: " + err.Error()
+					}
+					if pt, err := encryption.DecryptString(ct, format, ids[who]); err != nil || pt != pm {
+						return fmt.Sprintf("what is encrypted to it is not decrypted by its own private half (err=%v)", err)
+					}
+					if _, err := encryption.DecryptString(ct, format, ids[1-who]); err == nil {
+						return "what is encrypted to it is decrypted by the OTHER pair's private half"
+					}
+					return ""
+				}); m != "" {
+					return mk("parallel-parse-mixes-pairs", m)
+				}
+				st.Add("parallel_parse_rounds", int64(2*rounds))
+			}
 		} else {
 			rec, err := keys.ParseSignerRecipient(format, pub)
 			if err != nil {
@@ -284,6 +349,33 @@ func evalC18(t *testing.T, c *Case, st *Stats, relax Relax) *Violation {
 				}
 			}
 			st.Add("header_cross_pair_rounds", 2)
+			if rounds := int(c.Param("par", 0)); rounds > 0 {
+				heartbeat()
+				id2, err := keys.ParseSignerIdentity(format, priv2, pw)
+				if err != nil {
+					return mk("private-key-unparsable-with-its-password", "second pair: "+err.Error())
+				}
+				heartbeat()
+				pm := "parallel phase message " + sumOf(msg)
+				var sigs [2]string
+				for i, sid := range []interface{}{id, id2} {
+					if sigs[i], err = signature.SignString(pm, true, format, sid); err != nil {
+						return mk("sign-fails", err.Error())
+					}
+				}
+				if m := parallelParse(rounds, [2][]byte{pub, pub2}, func(b []byte) (interface{}, error) { return keys.ParseSignerRecipient(format, b) }, func(who int, rec interface{}) string {
+					if err := signature.VerifyString(pm, true, format, rec, sigs[who]); err != nil {
+						return "it does not verify the signature of its own private half: " + err.Error()
+					}
+					if signature.VerifyString(pm, true, format, rec, sigs[1-who]) == nil {
+						return "it VERIFIES a signature made by the other pair"
+					}
+					return ""
+				}); m != "" {
+					return mk("parallel-parse-mixes-pairs", m)
+				}
+				st.Add("parallel_parse_rounds", int64(2*rounds))
+			}
 		}
 		st.Nontrivial(fmt.Sprintf("%s|%d|%d|%d", kind, c.Param("pw", 0), c.Param("d0", 0), c.Param("d1", 0)))
 		st.Add("pairs_generated", 2)
